@@ -136,6 +136,27 @@ def binop(interp, st, op, a, b):
         st.heap.write(a.ty.cls, 'm', r.z, lam)
         yield st, r
         return
+    # set algebra on concrete key views / concrete sets (dict.keys() - dict.keys()): a new concrete set
+    from .interp import ConcreteIter
+    if isinstance(op, (ast.Sub, ast.BitOr, ast.BitAnd, ast.BitXor)):
+        def items(v):
+            if isinstance(v, ConcreteIter):
+                return v.items
+            if isinstance(v, PyRef) and isinstance(interp.deref(st, v), (set, list)) and v.kind == 'set':
+                return list(interp.deref(st, v))
+            return None
+        ia, ib = items(a), items(b)
+        if ia is not None and ib is not None and all(isinstance(x, (str, bytes, int, bool, tuple, type(None))) for x in ia + ib):
+            if isinstance(op, ast.Sub):
+                r = [x for x in ia if x not in ib]
+            elif isinstance(op, ast.BitOr):
+                r = ia + [x for x in ib if x not in ia]
+            elif isinstance(op, ast.BitAnd):
+                r = [x for x in ia if x in ib]
+            else:
+                r = [x for x in ia if x not in ib] + [x for x in ib if x not in ia]
+            yield st, st.new_py('set', r)
+            return
     raise Unsupported(f'binop {type(op).__name__} on {a!r}, {b!r}')
 
 
